@@ -48,19 +48,24 @@ fn main() {
         install_panic_hook();
         let n: usize = args.get(1).and_then(|s| s.parse().ok()).unwrap_or(200);
         let seed: u64 = args.get(2).and_then(|s| s.parse().ok()).unwrap_or(1);
-        let print = args.get(3).is_some();
+        let print = args.iter().any(|a| a == "print");
         let strat = progen::choices_strategy(600);
         let mut reasons: std::collections::BTreeMap<String, (usize, String)> = Default::default();
         let mut ok = 0;
         let mut bytes = 0;
+        let full = args.iter().any(|a| a == "full");
         for ch in sample_strategy(&strat, seed, n) {
-            for tgt in [Tgt::Dx, Tgt::Msl] {
-            let (_p, text, _) = progen::generate(&ch, if tgt == Tgt::Msl { progen::Profile::exec_msl() } else { progen::Profile::exec_hlsl() });
-            bytes += text.len();
-            if print {
-                println!("{}\n// ------------------------------------------", text);
-            }
-                match compile_text(&text, tgt) {
+            let tgts: &[Tgt] = if full { &Tgt::ALL4 } else { &[Tgt::Dx, Tgt::Msl] };
+            for &tgt in tgts {
+                let prof = if full { progen::Profile::full() } else if tgt == Tgt::Msl { progen::Profile::exec_msl() } else { progen::Profile::exec_hlsl() };
+                let (_p, text, _) = progen::generate(&ch, prof);
+                bytes += text.len();
+                if print && tgt == Tgt::Dx {
+                    println!("{}\n// ------------------------------------------", text);
+                }
+                let files = vec![("main.rssl".to_string(), text.clone())];
+                let mode = if full { Mode::All } else { Mode::NoPipeline };
+                match compile(&CompileReq { files: &files, entry: "main.rssl", defines: &[], tgt, mode, validate_layout: false }) {
                     Err(p) => {
                         reasons.entry(format!("{} PANIC {}", tgt.name(), p)).or_insert((0, text.clone())).0 += 1;
                     }
@@ -73,10 +78,10 @@ fn main() {
                 }
             }
         }
-        println!("accepted {} of {} compilations, avg {} bytes", ok, 2 * n, bytes / n.max(1));
+        println!("accepted {} compilations of {} programs, avg {} bytes", ok, n, bytes / n.max(1));
         for (k, (c, ex)) in &reasons {
             println!("{:5} {}", c, k);
-            if args.get(3).map(|s| s == "ex").unwrap_or(false) {
+            if args.iter().any(|a| a == "ex") {
                 println!("{}", ex);
             }
         }
